@@ -25,6 +25,22 @@ func (s *Shard) Fail(f common.Failure) {
 	s.count[k]++
 }
 
+// FailLazy is Fail for hot paths: mk is only called for the first failure of a
+// (class, shape) in this shard.
+func (s *Shard) FailLazy(class, shape string, mk func() common.Failure) {
+	if s.first == nil {
+		s.first, s.count = map[string]common.Failure{}, map[string]int{}
+	}
+	k := class + "|" + shape
+	if _, ok := s.first[k]; !ok {
+		f := mk()
+		f.Class, f.Shape = class, shape
+		s.first[k] = f
+		s.order = append(s.order, k)
+	}
+	s.count[k]++
+}
+
 // Flush reports the shards' failures to r in shard order (counts preserved).
 func Flush(r *common.Run, shards []Shard) {
 	for i := range shards {
